@@ -36,10 +36,11 @@ decision of the rules as written. -/
 theorem traffic_compiled_decides_as_written (S : Sem δ) (hS : MatchSetSem S) (g : Geo) (rs out : Prog)
     (fb : δ) (must : Bool) (d : δ × Bool) (hwf : ParserWF rs)
     (hp : trafficPipeline g rs = some out) (hc : compiledDecision S out fb must = some d) :
-    d = firstMatchAst (userSem S g true) rs fb must := by
+    d = firstMatchAst (userSemTraffic S g) rs fb must := by
   rw [trafficPipeline_eq] at hp
-  have h := pipeline_core S g true rs out hwf hp
-  rw [compiledDecision_eq S hS.guard out fb must h.2 d hc, h.1]
+  have h := pipeline_core S g true (patchMustOpt rs) out (parserWF_patchMust rs hwf) hp
+  rw [compiledDecision_eq S hS.guard out fb must h.2 d hc, h.1, firstMatchAst_patchMust]
+  rfl
 
 /-- **DNS response routing** (dat → merge-and-sort → dedup, no alias stage). -/
 theorem dns_response_compiled_decides_as_written (S : Sem δ) (hS : MatchSetSem S) (g : Geo)
@@ -80,7 +81,29 @@ theorem internal_selectors_decide_as_written (S : Sem δ) (g : Geo) (c : Cat) (r
   have h := pipeline_core (withCat S c) g false rs out hwf hp
   rw [selCompiled_eq, (splitCat_spec S c out q hs h.2).1, h.1]
 
+/-- **`Router.MatchNodeUpstream`** (what a node's DNS lookup actually uses): subscription nodes are looked
+up in the `subnode` rules first and fall through to the `node` rules; manual nodes only see the `node`
+rules.  After normalisation and split this gives exactly what the same precedence gives on the written
+list.  (`parseOut` always yields an upstream: `compileMatcher` knows no `must_rules`.) -/
+theorem node_lookup_decides_as_written {υ : Type} (S : Sem (Option υ)) (g : Geo) (rs out qs qn : Prog)
+    (tagged : Bool) (hwf : ParserWF rs) (hp : dnsPipeline g rs = some out)
+    (hs : splitCat .subnode out = some qs) (hn : splitCat .node out = some qn) :
+    nodeLookup S tagged qs qn =
+      orElseLookup (if tagged then (firstMatchAst (userSem (withCat S .subnode) g false) rs none false).1 else none)
+        (firstMatchAst (userSem (withCat S .node) g false) rs none false).1 := by
+  unfold nodeLookup
+  rw [internal_selectors_decide_as_written S g .subnode rs out qs none false hwf hp hs,
+    internal_selectors_decide_as_written S g .node rs out qn none false hwf hp hn]
+
 /-! ## The stages one by one (every clause of the property statement) -/
+
+/-- `config.patchMustOutbound`: rewriting `-> must_X` to `-> X(…, must)` changes nothing but how the
+outbound is read (the reading is the definition of the shorthand; the tie executes the real `config.New`). -/
+theorem must_shorthand_preserves_meaning (S : Sem δ) (rs : Prog) (fb : δ) (must : Bool) :
+    firstMatchAst S (patchMustOpt rs) fb must =
+      firstMatchAst { S with parseOut := fun o => S.parseOut (patchOut o) } rs fb must :=
+  firstMatchAst_patchMust S rs fb must
+
 
 /-- alias rewriting + geodata expansion (traffic): the expanded program means what was written. -/
 theorem alias_and_geodata_preserve_meaning (S : Sem δ) (g : Geo) (rs E : Prog) (fb : δ) (must : Bool)
@@ -216,7 +239,7 @@ not 22) — the hypotheses of `traffic_compiled_decides_as_written` are satisfia
 theorem ex_compiled : compiledDecision exSem exOut 0 false = some (1, false) := by decide
 
 /-- … and the written list says the same (as the theorem demands). -/
-example : firstMatchAst (userSem exSem exGeo true) exRules 0 false = (1, false) :=
+example : firstMatchAst (userSemTraffic exSem exGeo) exRules 0 false = (1, false) :=
   (traffic_compiled_decides_as_written exSem exSem_matchSet exGeo exRules exOut 0 false (1, false)
     exRules_wf ex_pipeline ex_compiled).symm
 
@@ -229,6 +252,16 @@ example : nfEqP
 /-- … and separates programs that differ in a value, a negation, a rule boundary or an outbound. -/
 example : nfEqP [⟨[⟨"port", false, [⟨"", "80"⟩]⟩], ⟨"proxy", false, []⟩⟩]
     [⟨[⟨"port", false, [⟨"", "80"⟩, ⟨"", "443"⟩]⟩], ⟨"proxy", false, []⟩⟩] = false := by decide
+
+/-- the `must_` shorthand: `must_proxy` becomes `proxy(must)` (and then merges with a neighbour written
+that way), `must_rules` and `mustang` are left alone, `must_us_proxy` loses exactly the prefix. -/
+example : (patchOut ⟨"must_proxy", false, []⟩ = ⟨"proxy", false, [⟨"", "must"⟩]⟩) ∧
+    (patchOut ⟨"must_rules", false, []⟩ = ⟨"must_rules", false, []⟩) ∧
+    (patchOut ⟨"mustang", false, []⟩ = ⟨"mustang", false, []⟩) ∧
+    (patchOut ⟨"must_us_proxy", false, [⟨"mark", "1"⟩]⟩ = ⟨"us_proxy", false, [⟨"mark", "1"⟩, ⟨"", "must"⟩]⟩) ∧
+    (trafficPipeline exGeo [⟨[⟨"dport", false, [⟨"", "80"⟩]⟩], ⟨"must_proxy", false, []⟩⟩,
+        ⟨[⟨"dport", false, [⟨"", "443"⟩]⟩], ⟨"proxy", false, [⟨"", "must"⟩]⟩⟩]).map List.length = some 1 := by
+  decide
 
 /-- **Why negated neighbours must not be merged** (`fix:` 89b7b19): with the old merge condition
 (equal negation is enough) `!port(80) -> proxy ; !port(443) -> proxy ; port(80) -> direct` sends the
